@@ -490,6 +490,7 @@ class Inliner:
                 # attribute / item reads of the value must not be overwritten after the definition (`saved = lib.setting;
                 # lib.setting = new; ...; lib.setting = saved` - the local holds the OLD value)
                 reads = {ast.unparse(x) for x in ast.walk(asg.value) if isinstance(x, (ast.Attribute, ast.Subscript))}
+                forwarded = {}      # id(use) -> expression that holds the value there (the location the local was stored to)
                 if reads:
                     clobber = []
                     for n2 in ast.walk(f.node):
@@ -504,8 +505,28 @@ class Inliner:
                     if clobber:
                         try:
                             cfg1 = CFG(f.node)
-                            if any(cfg1.reachable(asg, c2) for c2 in clobber):
-                                continue
+                            clobber = [c2 for c2 in clobber if cfg1.reachable(asg, c2)]
+                            # a use is dirty when a clobbering store can execute between the definition and it
+                            dirty = {}
+                            for u in uses:
+                                un = cfg1.node_of(u)
+                                for c2 in clobber:
+                                    if cfg1.reachable(c2, un, avoid=[asg]) if un is not c2 else cfg1.reachable(c2, c2, avoid=[asg]):
+                                        dirty.setdefault(id(u), []).append(c2)
+                            if dirty:
+                                # `t = f(X); X = t; ... t ...`: after the store the location X holds the value - later uses
+                                # read X (this undoes "introduce a local for the value stored"), nothing else qualifies
+                                c2s = {id(c) for cs in dirty.values() for c in cs}
+                                c2 = clobber[[id(c) for c in clobber].index(next(iter(c2s)))] if len(c2s) == 1 else None
+                                ok2 = (c2 is not None and len(clobber) == 1 and isinstance(c2, ast.Assign) and len(c2.targets) == 1
+                                       and isinstance(c2.value, ast.Name) and c2.value.id == name
+                                       and ast.unparse(c2.targets[0]) in reads
+                                       and all(cfg1.dominates(c2, u) and cfg1.node_of(u) is not c2 for u in uses if id(u) in dirty))
+                                if not ok2:
+                                    continue
+                                for u in uses:
+                                    if id(u) in dirty:
+                                        forwarded[id(u)] = c2.targets[0]
                         except Exception:
                             continue
                 try:
@@ -514,13 +535,19 @@ class Inliner:
                         continue
                 except Exception:
                     continue
-                cand = (name, asg, uses)
+                cand = (name, asg, uses, forwarded)
                 break
             if cand is None:
                 return
-            name, asg, uses = cand
+            name, asg, uses, forwarded = cand
             for u in uses:
-                _replace_node(f.node, u, ast.copy_location(_clone(asg.value), u))
+                src = forwarded.get(id(u))
+                if src is not None:
+                    src = _clone(src)
+                    for x in ast.walk(src):
+                        if hasattr(x, "ctx"):
+                            x.ctx = ast.Load()
+                _replace_node(f.node, u, ast.copy_location(src if src is not None else _clone(asg.value), u))
             self._remove_stmt(f.node, asg)
             self.temps.append((f.qname, name))
 
